@@ -53,7 +53,7 @@ def cases(tier, seed):
         if G.has_bn(p):
             out.append({'prog': p, 'fold_bn': True})
     for m in HAND:
-        for fold in (False, True):
+        for fold in ((False, True) if m != 'prefix1d' else (False,)):
             out.append({'kind': 'hand', 'model': m, 'fold_bn': fold})
     for c in out:
         c['tier'] = tier
@@ -103,7 +103,30 @@ class _Tied2d(torch.nn.Module):
         return self.lin(torch.flatten(self.pool(y), 1))
 
 
-HAND = {'tied1d': _Tied1d, 'tied2d': _Tied2d}
+class _Prefix1d(torch.nn.Module):
+    """conv1 (excluded by NAME, fed by the input) -> conv2 -> conv10 -> fc2 -> fc; 'conv1' is a string prefix of 'conv10'"""
+    shape = (3, 8)
+    exclude = ['conv1']
+
+    def __init__(self):
+        super().__init__()
+        nn = torch.nn
+        self.conv1 = nn.Conv1d(3, 4, 3, padding='same')
+        self.conv2 = nn.Conv1d(4, 4, 3, padding='same')
+        self.conv10 = nn.Conv1d(4, 3, 3, padding='same')
+        self.pool = nn.AdaptiveAvgPool1d(1)
+        self.fc2 = nn.Linear(3, 4)
+        self.fc = nn.Linear(4, 2)
+
+    def forward(self, x):
+        x = torch.relu(self.conv1(x))
+        x = torch.relu(self.conv2(x))
+        x = torch.relu(self.conv10(x))
+        x = torch.relu(self.fc2(torch.flatten(self.pool(x), 1)))
+        return self.fc(x)
+
+
+HAND = {'tied1d': _Tied1d, 'tied2d': _Tied2d, 'prefix1d': _Prefix1d}
 
 
 def _run_hand(case, seed):
@@ -125,12 +148,19 @@ def _run_hand(case, seed):
     x = torch.randn((3,) + cls.shape, generator=torch.Generator().manual_seed(seed + 3))
     ssig = f'hand-{case["model"]}/fold={int(fold)}'
     try:
-        pit = PIT(model, input_shape=cls.shape, fold_bn=fold)
+        pit = PIT(model, input_shape=cls.shape, fold_bn=fold, exclude_names=getattr(cls, 'exclude', ()))
     except Exception as e:
         res.update(states=1, evals=1, outcomes=['conversion-raises'])
         res['violations'].append({'kind': 'conversion-raises', 'sig': 'conversion-raises/' + ssig, 'msg': f'PIT() raised {type(e).__name__}: {e}', 'case': base_case})
         return res
     pit.eval()
+    want = sorted(n for n, m in model.named_modules() if isinstance(m, (torch.nn.Conv1d, torch.nn.Conv2d, torch.nn.Linear))
+                  and n not in getattr(cls, 'exclude', ()))
+    got = sorted(n for n, _ in D.pit_layers(pit))
+    if want != got:
+        res['outcomes'].add('searchable-set-differs')
+        res['violations'].append({'kind': 'searchable-set-differs', 'sig': 'searchable-set-differs/' + ssig,
+                                  'msg': f'layers made searchable {got}, expected every conv / linear layer except the excluded names: {want}', 'case': base_case})
     fms, seen = [], set()
     for name, layer in D.pit_layers(pit):
         fm = layer.out_features_masker
